@@ -26,6 +26,13 @@ CHECKS = {
                 text='all E1 membership explorations run with the internal-error monitor (CRIT record with traceback, non-RPCError '
                      'exception from an XML-RPC method, exception escaping a proxy thread, un-marshallable result)',
                 note='bounded as the underlying explorations; the hostile-message product is part of the thorough tier'),
+    'C08': dict(engine='E1-cluster', category='model_checking', technique=E1 + ' + fair-closure bounded liveness',
+                ref='DESIGN.md section 4, C08',
+                text='fault prefixes (crash, restart, isolate/rejoin, stall/resume) are explored in every Supvisors state within '
+                     'the deviation bound; from the explored states a deterministic fair closure of K rounds must bring every '
+                     'member of every connected group back to OPERATION with no job pending',
+                note='bounded liveness: K=12 rounds (36 before a report); quick tier evaluates the closure on every state '
+                     'reached by a deviation/fault/request and on terminal states, thorough on every state'),
     'C11': dict(engine='E2-seq', category='exploration', technique=E2, ref='DESIGN.md section 4, C11',
                 text='every sequence (to the depth bound, or to the fixpoint of the product state space) of snapshots, '
                      'events, losses, removals and forced states over 2-3 instances is applied to the real ProcessStatus '
